@@ -134,22 +134,25 @@ theorem stamps_getElem? {τ : Type} [Add τ] [OfNat τ 0] (P : τ) (n i : Nat) (
 theorem getElem?_mid {α : Type} (a : List α) (x : α) (b : List α) : (a ++ x :: b)[a.length]? = some x := by
   simp
 
-/-- the store stamp of the observation at position `pre.length` of a run over `stamps P n` -/
-theorem now_at (tr : Nat → List (Trans Int)) (P : Int) (n : Nat)
+theorem stampsFrom_getElem? {τ : Type} [Add τ] [OfNat τ 0] (P : τ) (s n i : Nat) (h : i < n) :
+    (stampsFrom P s n)[i]? = some (stampAt P (s + i)) := by
+  simp [stampsFrom, stamps, h]
+
+/-- the store stamp of the observation at position `pre.length` of an instance started at tick `s` -/
+theorem now_at (tr : Nat → List (Trans Int)) (P : Int) (s n : Nat)
     (pre : List (Obs Int)) (o : Obs Int) (post : List (Obs Int))
-    (h : run tr (stamps P n) = pre ++ o :: post) : o.now = pre.length * P := by
-  have h1 := run_nows tr (stamps P n)
+    (h : run tr (stampsFrom P s n) = pre ++ o :: post) : o.now = ((s + pre.length : Nat) : Int) * P := by
+  have h1 := run_nows tr (stampsFrom P s n)
   rw [h] at h1
-  have h2 : (stamps P n)[pre.length]? = some o.now := by
+  have h2 : (stampsFrom P s n)[pre.length]? = some o.now := by
     rw [← h1]; simp
   have hlt : pre.length < n := by
-    have : (stamps P n).length = n := by simp [stamps]
-    have h3 : pre.length < (stamps P n).length := by
+    have : (stampsFrom P s n).length = n := by simp [stampsFrom, stamps]
+    have h3 : pre.length < (stampsFrom P s n).length := by
       rw [← h1]; simp
     omega
-  rw [stamps_getElem? P n _ hlt] at h2
+  rw [stampsFrom_getElem? P s n _ hlt] at h2
   rw [← stampAt_int]
   exact (Option.some.inj h2).symm
-
 
 end Ioflo.FloClock
